@@ -4,4 +4,4 @@ Extraction "c02_model.ml" is_knn_b dists_sorted metric_b samples
   nth_ok_b brute_dists_fixed brute_row_fixed brute_dists brute_row nth_element_ref
   items vp_inv_b vp_holds_b vp_search vp_search_dists vp_row vp_row_fixed build piv_first nth_sort
   ct_select ct_select_fixed cand_complete_b cand_exact_b
-  ct_query valid_b no_audit ct_inv_b ct_holds_b ct_fuel leaf_points.
+  ct_query valid_b no_audit ct_inv_b ct_holds_b leaf100_b ct_fuel leaf_points.
